@@ -160,6 +160,48 @@ def replies(which, mode):
     sx.reach("reply-ok")
 
 
+def late_reply(which):
+    """a request times out, its reply arrives late, then the next request must get *its* reply"""
+    LssError = sx.mod("canopen.lss").LssError
+    state = dict(mode="silent")
+    val = sx.fresh_int("val", 0, 0xFFFFFFFF)
+    nid = sx.fresh_byte("nid")
+
+    def reply(frame):
+        f = sx.items(frame)
+        if state["mode"] == "silent":
+            return []
+        if f[0] == 0x5E:
+            return [sx.mkbytes([0x5E, nid, 0, 0, 0, 0, 0, 0])]
+        if 0x5A <= f[0] <= 0x5D:
+            return [sx.mkbytes([f[0]] + le32(val) + [0, 0, 0])]
+        return [sx.mkbytes([f[0], 0, 0, 0, 0, 0, 0, 0])]
+    rig = Rig(reply=reply)
+    lss = rig.lss
+    try:
+        lss.inquire_lss_address(0x5D)
+        sx.fail("silence reported as success", "C18/late/silence-accepted")
+    except LssError:
+        pass
+    # the reply to the timed-out request arrives late (any frame)
+    rig.net.notify(RX, sx.fresh_bytes("late", 8), 0.0)
+    state["mode"] = "answer"
+    tag = "C18/late/" + which
+    try:
+        if which == "inquire_node_id":
+            got = lss.inquire_node_id()
+            sx.prove(got == nid, "reply of an earlier, timed-out request was taken for this one", tag + "/value")
+        elif which == "inquire_lss_address":
+            got = lss.inquire_lss_address(0x5A)
+            sx.prove(got == val, "reply of an earlier, timed-out request was taken for this one", tag + "/value")
+        else:
+            lss.configure_node_id(9)
+    except LssError:
+        sx.fail("request after a late reply failed", tag + "/failed")
+        return
+    sx.reach("late-reply")
+
+
 def fast_scan(background, part, lo, w):
     """identity = background with w symbolic bits at bits lo..lo+w-1 of `part`"""
     ident = list(background)
@@ -238,6 +280,8 @@ def jobs(tier):
                     out.append(dict(func="fast_scan", params=dict(background=bg, part=part, lo=lo, w=12), weight=5000))
                 for lo in range(0, 32):
                     out.append(dict(func="fast_scan", params=dict(background=bg, part=part, lo=lo, w=1), weight=3))
+    for w in ("inquire_node_id", "inquire_lss_address", "configure_node_id"):
+        out.append(dict(func="late_reply", params=dict(which=w)))
     out.append(dict(func="fast_scan_none", params={}))
     out.append(dict(func="after_scan", params={}))
     return out
@@ -263,7 +307,7 @@ META = dict(
     required_reach=["framing-switch_global", "framing-configure_node_id", "framing-configure_bit_timing",
                     "framing-activate_bit_timing", "framing-store_configuration", "framing-inquire_node_id",
                     "framing-inquire_lss_address", "framing-selective", "reply-ok", "reply-error", "reply-silence",
-                    "fastscan", "fastscan-none", "after-scan"],
+                    "fastscan", "fastscan-none", "after-scan", "late-reply"],
     limits=dict(quick=dict(max_decisions=50000), thorough=dict(max_decisions=100000)),
     validate_every=dict(quick=5, thorough=40),
     max_validate=dict(quick=8, thorough=8),
